@@ -8,6 +8,7 @@
 //@@ map k_(sgn|int|fix|csng|cdbl|u16_try_from|u32_try_from|usize_try_from|f32_try_from|f64_try_from)__num  props=C02 kind=complete domain=Integer|Single|Double_full_bit_patterns
 //@@ map k_pos__all  props=C11 kind=complete domain=all_usize
 //@@ map k_line_number_roundtrip__all  props=C15,C14 kind=complete domain=all_u16_line_numbers
+//@@ map k_u16_f32_order__all  props=C15,C14 kind=complete domain=all_u16_pairs
 // (the __nonnum harnesses build Rc<str> values and need 8-10 GB each in CBMC: not registered)
 //@@ file src/verif_ops.rs
 //! Postconditions of Operation::*, TryFrom<Val> and the numeric Function::*,
@@ -965,5 +966,13 @@ crate::vharness!(k_line_number_roundtrip__all, plain, |s| {
         Err(e) => Err(e),
     };
     vpost("line_number_roundtrip", || if n <= 65529 { matches!(back, Ok(Some(m)) if m == n) } else { back.is_err() });
+});
+// The machine-arithmetic lemma behind the parser's range check (`from as f32 > to as f32`) and the assumed axiom
+// `axiom_ln_f32_order` of the Verus parser unit: the cast u16 -> f32 preserves the order of every pair, and 0 is 0.0.
+// (A statement about the language's cast, not about a function of the repository.)
+crate::vharness!(k_u16_f32_order__all, plain, |s| {
+    let a = s.u16();
+    let b = s.u16();
+    vpost("u16_f32_order", || ((a as f32) > (b as f32)) == (a > b) && (0u16 as f32) == 0.0f32);
 });
 
